@@ -18,10 +18,10 @@ Definition tbl_valid (t : list (string * bool)) (pat : string) : bool :=
 Definition with_flag (i : nat) (q : pquirks) : pquirks :=
   let off (k : nat) (b : bool) := if i =? k then false else b in
   Build_pquirks (off 0 (q_global_on_covered q)) (off 1 (q_prefix_without_separator q)) (off 2 (q_path_relative_to_cwd q))
-                (off 3 (q_allow_dict_unsupported q)) (off 4 (q_trailing_slash_depth q)).
+                (off 3 (q_allow_dict_unsupported q)) (off 4 (q_trailing_slash_depth q)) (off 5 (q_backslash_separator q)).
 
 (* candidates: the claimed vector, the claimed vector with one flag switched off, the ideal *)
-Definition candidates (q : pquirks) : list pquirks := q :: map (fun i => with_flag i q) [0;1;2;3;4] ++ [ideal].
+Definition candidates (q : pquirks) : list pquirks := q :: map (fun i => with_flag i q) [0;1;2;3;4;5] ++ [ideal].
 
 (* what the harness observed: a ValueError with its text, a swallowed internal failure, or the violations *)
 Inductive ioutcome := IRejected (msg : string) | ICrashed | IReports (l : list rep).
@@ -62,7 +62,9 @@ Definition soutcome_eqb (a b : soutcome) : bool :=
   end.
 
 (* compact tables of the correspondence check: the patterns of the rule set once, and per file one row of
-   booleans (aligned with the pattern list) for each of the two strings the file can be judged under *)
+   booleans (aligned with the pattern list) for each of the strings the file can be judged under: its
+   root-relative path, the path as handed over, and what the implementation's normalize_path_string makes of
+   either (the harness calls the real function and passes the resulting strings along with their rows) *)
 Fixpoint lookup (pat : string) (pats : list string) (row : list bool) (dflt : bool) : bool :=
   match pats, row with
   | p :: ps, b :: bs => if String.eqb pat p then b else lookup pat ps bs dflt
@@ -74,11 +76,21 @@ Definition row_matches (pats : list string) (s1 : string) (r1 : list bool) (s2 :
   if String.eqb s s1 then lookup pat pats r1 false
   else if String.eqb s s2 then lookup pat pats r2 false else false.
 
+(* one observed file: the file, rows for relpath / rest, the two normalised strings with their rows, the outcome *)
+Definition frun := (fileq * list bool * list bool * (string * list bool) * (string * list bool) * ioutcome)%type.
+
+Definition rows_matches (pats : list string) (f : fileq) (r1 r2 : list bool) (n1 n2 : string * list bool)
+           (pat s : string) : bool :=
+  if String.eqb s (relpath f) then lookup pat pats r1 false
+  else if String.eqb s (f_rest f) then lookup pat pats r2 false
+  else if String.eqb s (fst n1) then lookup pat pats (snd n1) false
+  else if String.eqb s (fst n2) then lookup pat pats (snd n2) false else false.
+
 Definition judge (q : pquirks) (pats : list string) (vrow : list bool)
-           (c : config) (runs : list (fileq * list bool * list bool * ioutcome)) : list (list bool) :=
+           (c : config) (runs : list frun) : list (list bool) :=
   let valid := fun pat => lookup pat pats vrow true in
-  map (fun fi => let '(f, r1, r2, i) := fi in
-         let matches := row_matches pats (relpath f) r1 (f_rest f) r2 in
+  map (fun fi => let '(f, r1, r2, n1, n2, i) := fi in
+         let matches := rows_matches pats f r1 r2 n1 n2 in
          let s := spec valid matches c f in
          agrees_spec i s
          :: soutcome_eqb (forget (run valid matches ideal c f)) s
@@ -89,15 +101,15 @@ Definition judge (q : pquirks) (pats : list string) (vrow : list bool)
 Definition swith_flag (i : nat) (q : squirks) : squirks :=
   Build_squirks (if i =? 0 then false else q_rules_toplevel_ignored q) (if i =? 1 then false else q_rules_do_not_override_file q).
 
-(* candidates: the claimed vectors, each of the seven flags switched off alone, the ideal *)
+(* candidates: the claimed vectors, each of the eight flags switched off alone, the ideal *)
 Definition candidates_src (q : pquirks) (sq : squirks) : list (pquirks * squirks) :=
-  (q, sq) :: map (fun i => (with_flag i q, sq)) [0;1;2;3;4] ++ map (fun i => (q, swith_flag i sq)) [0;1] ++ [(ideal, sideal)].
+  (q, sq) :: map (fun i => (with_flag i q, sq)) [0;1;2;3;4;5] ++ map (fun i => (q, swith_flag i sq)) [0;1] ++ [(ideal, sideal)].
 
 Definition judge_src (q : pquirks) (sq : squirks) (pats : list string) (vrow : list bool)
-           (s : source) (runs : list (fileq * list bool * list bool * ioutcome)) : list (list bool) :=
+           (s : source) (runs : list frun) : list (list bool) :=
   let valid := fun pat => lookup pat pats vrow true in
-  map (fun fi => let '(f, r1, r2, i) := fi in
-         let matches := row_matches pats (relpath f) r1 (f_rest f) r2 in
+  map (fun fi => let '(f, r1, r2, n1, n2, i) := fi in
+         let matches := rows_matches pats f r1 r2 n1 n2 in
          let sp := spec_src valid matches s f in
          agrees_spec i sp
          :: soutcome_eqb (forget (run_src valid matches ideal sideal s f)) sp
